@@ -120,6 +120,22 @@ def check_chebychev(tier, seed):
                         step = h.transform(step, axes=(ax,))
                     ok2 = ok2 and close(ah, step, 1e-9) and close(h.itransform(ah.copy(), axes=axes_), a, 1e-9)
                 obs.append(_ob(f'{tag}:transforms_along_several_axes_in_one_call_are_mutually_inverse', ok2))
+            if 4 <= N <= 16:
+                # zero-padded backward transform (dealiasing layout; SpectralHelper applies the factor M / N): the low modes of ONE helper evaluated on
+                # finer grids of SEVERAL sizes in sequence, with unpadded transforms in between, always give the polynomial on that fine grid
+                okP, nm = True, min(4, N // 2)
+                cf = np.random.RandomState(100 + N).randn(nm)
+                for Mp in (N + 4, 2 * N, N + 4, N + 1):
+                    uh_ = np.zeros(Mp)
+                    uh_[:nm] = cf
+                    try:
+                        up = h.itransform(uh_) * Mp / N
+                    except Exception:
+                        okP = False
+                        break
+                    gf = ChebychevHelper(Mp, x0=x0, x1=x1).get_1dgrid()
+                    okP = okP and close(up, C.chebval((gf - off) / fac, cf), 1e-10) and close(h.itransform(I[1].copy()), C.chebval((grid - off) / fac, I[1]), 1e-10)
+                obs.append(_ob(f'{tag}:padded_itransform_of_low_modes_is_the_polynomial_on_every_finer_grid_in_sequence', okP))
             for p in (1, 2, 3):
                 D = h.get_differentiation_matrix(p).toarray()
                 want = np.array([pad(C.chebder(I[k], p) if k >= p else [0.0], N) for k in range(N)]).T / fac**p
